@@ -68,6 +68,14 @@ impl Randomable<f64> for Range<f64> {
     fn gen_from_u64(self, rng: u64) -> f64 {
         assert!(!self.is_empty());
         let len = self.end - self.start;
-        (rng as f64 / u64::MAX as f64) * len + self.start
+        // 53 random bits give a unit draw in [0, 1); rounding in `* len + start` can still
+        // land on `end` (or overflow for huge ranges), so fall back to `start` in that case
+        let unit = (rng >> 11) as f64 / (1u64 << 53) as f64;
+        let x = unit * len + self.start;
+        if x < self.end {
+            x
+        } else {
+            self.start
+        }
     }
 }
